@@ -151,7 +151,7 @@ impl Xsubstr { #[verifier::external_body] pub fn as_str(&self) -> (r: &str) ensu
 // the lexer (verified in units lexer / lex): here only that it yields a token and can name the text it just read
 impl Lex {
     #[verifier::external_body] pub fn new(buf: Xstr) -> Lex { unimplemented!() }
-    #[verifier::external_body] pub fn next_nonws(&mut self) -> Xresult1<Tok> { unimplemented!() }
+    #[verifier::external_body] pub fn next_nonws(&mut self) -> (r: Xresult1<Tok>) ensures r is Ok ==> !(r->Ok_0 is Whitespace) && !(r->Ok_0 is Comment) { unimplemented!() }
     #[verifier::external_body] pub fn last_substr(&self) -> Xsubstr { unimplemented!() }
 }
 // `Xstr == str` (arcstr): equality of the texts
@@ -197,6 +197,57 @@ impl Xerr {
 //@use corewords.fns State::load_core#w_late
 
 //@use corewords.fns State::load_core#w_const
+
+// ---- `let`: run-time helper words it compiles calls of (named only), the emitter of a native call, a tag-key constant
+#[verifier::external_body] fn core_word_tags(xs: &mut State) -> Xresult { unimplemented!() }
+#[verifier::external_body] fn core_word_dup(xs: &mut State) -> Xresult { unimplemented!() }
+#[verifier::external_body] fn core_word_assert_eq(xs: &mut State) -> Xresult { unimplemented!() }
+#[verifier::external_body] fn let_map_begin(xs: &mut State) -> Xresult { unimplemented!() }
+#[verifier::external_body] fn let_map_end(xs: &mut State) -> Xresult { unimplemented!() }
+#[verifier::external_body] fn let_map_lookup(xs: &mut State) -> Xresult { unimplemented!() }
+#[verifier::external_body] fn let_vec_len(xs: &mut State) -> Xresult { unimplemented!() }
+#[verifier::external_body] fn let_vec_any_len(xs: &mut State) -> Xresult { unimplemented!() }
+#[verifier::external_body] fn let_vec_at(xs: &mut State) -> Xresult { unimplemented!() }
+#[verifier::external_body] fn let_vec_rest(xs: &mut State) -> Xresult { unimplemented!() }
+#[verifier::external_body] fn verif_assert_msg_key() -> Cell { unimplemented!() }
+impl vstd::std_specs::convert::FromSpecImpl<usize> for Cell {
+    open spec fn obeys_from_spec() -> bool { true }
+    open spec fn from_spec(x: usize) -> Cell { Cell::Int(x as i128) }
+}
+impl From<usize> for Cell {
+//@use cell.fns "impl From<usize> for Cell"::from
+}
+impl vstd::std_specs::convert::FromSpecImpl<Xstr> for Cell {
+    open spec fn obeys_from_spec() -> bool { true }
+    open spec fn from_spec(x: Xstr) -> Cell { Cell::Str(x) }
+}
+impl From<Xstr> for Cell {
+//@use cell.fns "impl From<Xstr> for Cell"::from
+}
+impl Cell {
+    #[verifier::external_body] pub fn insert_tag(&self, key: Cell, val: Cell) -> Cell { unimplemented!() }
+}
+impl Xerr {
+    #[verifier::external_body] pub fn unbalanced_map_builder() -> Xerr { unimplemented!() }
+}
+
+impl State {
+    // `self.code_emit(Opcode::NativeCall(XfnPtr(f)))` (fn pointer: outside the dialect): ASSUMED to be code_emit of one cell
+    #[verifier::external_body] fn code_emit_call_native<F>(&mut self, f: F) -> (r: Xresult)
+        requires old(self).code@.len() <= old(self).debug_map@.len()
+        ensures r is Ok, *final(self) == (State { code: final(self).code, debug_map: final(self).debug_map, ..*old(self) }),
+            final(self).code@.len() == old(self).code@.len() + 1, final(self).code@.len() <= final(self).debug_map@.len(),
+            final(self).code@.drop_last() == old(self).code@
+    { unimplemented!() }
+}
+//@use compile.fns ::build_let_match
+//@use compile.fns ::build_let_vec_next
+//@use compile.fns ::build_let_named
+//@use compile.fns ::build_let_tags
+//@use compile.fns ::build_let_map
+//@use compile.fns ::build_let_vec
+//@use compile.fns ::build_let_in
+//@use compile.fns ::core_word_let
 
 } // verus!
 fn main() {}
